@@ -174,6 +174,10 @@ def witness_cases():
             op_srcpage("a:name", SRC_CTX[0]), op_srcpage("a:name", SRC_CTX[1]), op_srcpage("label", SRC_CTX[0]),
             op_srcpage("label", SRC_CTX[1]), op_srcpage("a:name", SRC_CTX[2]), op_srcpage("label", SRC_CTX[2]),
             op_srcpage("h:q/r", SRC_CTX[1]), op_compact("http://a.example/x#q/r"), op_dump()]),
+        # a URI that is itself a namespace (empty local part) compacts to "ns<N>:" - and that CURIE expands back
+        mk([op_compact("http://a.example/x/"), op_expand("ns3:"), op_compact("http://a.example/x#"), op_expand("ns4:"),
+            op_tcompact("http://a.example/y/"), op_expand("ns5:"), op_assert("urn:x:"), op_expand("ns6:"), op_expand("ns6:tail"),
+            op_restart(), op_expand("ns3:"), op_expand("ns0:"), op_dump()]),
         # URI shapes
         mk([op_compact(x) for x in ODD_URIS] + [op_compact(n + l) for n, l in zip(NS_POOL, LOCALS)]
            + [op_restart()] + [op_compact(n + l) for n, l in zip(NS_POOL, LOCALS)] + [op_expand("ns3:"), op_expand("nocolon"),
